@@ -208,17 +208,17 @@ theorem diffReplacements_go_total (os : List α) : ∀ (ns : List α), os.length
       exact ⟨d :: ds, by simp [diffReplacements.go, hd, hds, bind, Except.bind, pure, Except.pure]⟩
 
 theorem diffReplacements_total (os ns : List α) (hl : os.length = ns.length)
-    (hD : ∀ x ∈ os, ∀ y ∈ ns, ∃ d, elemDiff x y = .ok d) :
+    (hD : ∀ x ∈ os, ∀ y ∈ ns, lit = none → ∃ d, elemDiff x y = .ok d) :
     ∃ ds, diffReplacements elemDiff lit os ns = .ok ds := by
   unfold diffReplacements
   cases lit with
   | some f => exact ⟨_, rfl⟩
-  | none => exact diffReplacements_go_total elemDiff os ns hl hD
+  | none => exact diffReplacements_go_total elemDiff os ns hl (fun x hx y hy => hD x hx y hy rfl)
 
 /-- one iteration of the merge loop -/
 theorem mergeStep_spec {out : List (Edit α δ)} {o n dO dN : List α} (e : RawEdit α)
     (h : ReconR eqb elemDiff lit out o n) (hs : StepS eqb e dO dN)
-    (hD : ∀ x ∈ o ++ dO, ∀ y ∈ n ++ dN, ∃ d, elemDiff x y = .ok d) :
+    (hD : ∀ x ∈ o ++ dO, ∀ y ∈ n ++ dN, lit = none → ∃ d, elemDiff x y = .ok d) :
     ∃ out', mergeStep elemDiff lit out e = .ok out' ∧ ReconR eqb elemDiff lit out' (o ++ dO) (n ++ dN) := by
   have hpush : ∃ out', (Except.ok (toEdit e :: out) : Except Err (List (Edit α δ))) = Except.ok out' ∧ ReconR eqb elemDiff lit out' (o ++ dO) (n ++ dN) := by
     refine ⟨_, rfl, ReconR.snoc _ out o n dO dN h ?_⟩
@@ -268,7 +268,7 @@ theorem mergeStep_spec {out : List (Edit α δ)} {o n dO dN : List α} (e : RawE
 /-- the merge loop over the raw edits in forward order -/
 theorem merge_spec (raw : List (RawEdit α)) : ∀ (out : List (Edit α δ)) (o1 n1 o2 n2 : List α),
     ReconR eqb elemDiff lit out o1 n1 → RawF eqb raw o2 n2 →
-    (∀ x ∈ o1 ++ o2, ∀ y ∈ n1 ++ n2, ∃ d, elemDiff x y = .ok d) →
+    (∀ x ∈ o1 ++ o2, ∀ y ∈ n1 ++ n2, lit = none → ∃ d, elemDiff x y = .ok d) →
     ∃ out', merge elemDiff lit out raw = .ok out' ∧ ReconR eqb elemDiff lit out' (o1 ++ o2) (n1 ++ n2) := by
   induction raw with
   | nil =>
